@@ -259,6 +259,7 @@ def run(tier, seed):
     orbit = {(x["t"], tuple(x["p"])): x["m"] for x in rm.records}
     from xfab import structure
     nfiles = 0
+    prev = None
     for k, (x, ti, t, text, exp) in enumerate(jobs):
         cfg = x["cfg"]
         path = os.path.join(wd, "gen-%d.%s" % (k, cfg["kind"]))
@@ -280,6 +281,16 @@ def run(tier, seed):
         finally:
             os.remove(path)
         bad = []
+        # the atom list read from the PREVIOUS file must not have been touched by reading this one (lists or dictionaries shared
+        # between build_atomlist objects, default arguments that accumulate)
+        if prev is not None:
+            pal, psnap = prev
+            now = (len(pal.atom), list(pal.cell) if pal.cell is not None else None, pal.sgname, sorted(str(q) for q in pal.dispersion),
+                   [(a_.label, a_.atomtype, list(a_.pos)) for a_ in pal.atom])
+            if now != psnap:
+                bad.append("the atom list read from the previous file changed while this file was read (%d atoms before, %d now)" % (len(psnap[4]), len(pal.atom)))
+        prev = (al, (len(al.atom), list(al.cell) if al.cell is not None else None, al.sgname, sorted(str(q) for q in al.dispersion),
+                     [(a_.label, a_.atomtype, list(a_.pos)) for a_ in al.atom]))
         if not seq_same(al.cell, exp["cell"]):
             bad.append("cell %s, file states %s" % (list(al.cell), exp["cell"]))
         got_sg = al.sgname if cfg["kind"] == "cif" else str(al.sgname).lower()
